@@ -175,11 +175,29 @@ class Model:
         for c in self.classes.values():
             c.bases = [b.attr if isinstance(b, ast.Attribute) else getattr(b, 'id', ast.unparse(b)) for b in c.node.bases]
         self._rename_aliases()
+        self._decorator_aliases()
         self.mro = {c: self._c3(c) for c in self.classes}
         self._implicit_hash()
         self._switch_tables()
         self._registry()
         self._roles()
+
+    def _decorator_aliases(self):
+        """`_memo = functools.lru_cache(maxsize=N)` at module level and `@_memo` on a function: the decorator is read as what
+        the name stands for, so that memoisation (and a missing typed=True) is seen however it is spelled."""
+        for f in self.funcs.values():
+            new = []
+            for d in f.decorators:
+                g = self.modglobals.get(f.mod, {}).get(d.split('(')[0]) if d.split('(')[0].isidentifier() else None
+                if isinstance(g, ast.Call) and ('lru_cache' in ast.unparse(g.func) or ast.unparse(g.func).split('.')[-1] == 'cache') and '(' not in d:
+                    new.append(ast.unparse(g))
+                elif isinstance(g, ast.Attribute) and g.attr in ('lru_cache', 'cache') and d == d.split('(')[0]:
+                    new.append(ast.unparse(g))
+                elif isinstance(g, ast.Attribute) and g.attr in ('lru_cache', 'cache'):
+                    new.append(ast.unparse(g) + d[len(d.split('(')[0]):])
+                else:
+                    new.append(d)
+            f.decorators = new
 
     def _rename_aliases(self):
         """A private function of the reviewed baseline that is gone, while a function that did not exist then has exactly its
